@@ -88,7 +88,10 @@ func (commander *Commander) exec(ctx context.Context, parameters Parameters, scr
 			if err := commander.referencer.take(referenceTxReference, script.Reference); err != nil {
 				return nil, nil, NewErrConflict()
 			}
-			defer commander.referencer.release(referenceTxReference, script.Reference)
+			// the reservation lasts until the log is persisted: the store lookup below only sees persisted transactions
+			executionContext.deferUntilPersisted(func() {
+				commander.referencer.release(referenceTxReference, script.Reference)
+			})
 
 			_, err := commander.store.GetTransactionByReference(ctx, script.Reference)
 			if err == nil {
